@@ -143,7 +143,7 @@ let run_case (line : string) : string =
   let (ordered, ops) = (match segs with
       | hd :: ops -> ((match split_ws hd with ["H"; o] -> o = "1" | _ -> failwith "bad header"), ops)
       | [] -> failwith "empty history") in
-  let st = Stdlib.List.fold_left (fun s optxt -> if optxt = "" then s else fst (step s (parse_op (split_ws optxt)))) (init_store ordered) ops in
+  let st = Stdlib.List.fold_left (fun s optxt -> if optxt = "" || optxt = "sync" then s else fst (step s (parse_op (split_ws optxt)))) (init_store ordered) ops in
   let vc = (match view_cluster lim st (nn 1) with
       | Some (Some v) -> v
       | Some None -> failwith "view_cluster panics"
